@@ -35,8 +35,21 @@ def run_cli(binary, args, cwd, timeout=120):
     return ex, p.stdout, err
 
 
+HOME_DIRS = []
+
+
 def prepare_target(base, target):
-    """Returns (argument, path of the object to inspect, hash before)."""
+    """Returns (argument, path of the object to inspect, hash before).  A target kind followed by "~" is the same object named
+    relative to the home directory (HOME = base): the tool expands "~/" itself."""
+    if target.endswith("~"):
+        # the tool expands "~/" with the account's home directory (not $HOME): a private directory there, removed afterwards
+        import pwd
+        home = pwd.getpwuid(os.getuid()).pw_dir
+        priv = os.path.join(home, ".verif-c20-%d-%s" % (os.getpid(), os.path.basename(base)))
+        os.makedirs(priv, exist_ok=True)
+        HOME_DIRS.append(priv)
+        arg, obj, before = prepare_target(priv, target[:-1])
+        return "~/" + os.path.relpath(arg, home), obj, before
     if target == "stdout":
         return "-", None, None
     if target == "absent":
@@ -59,6 +72,15 @@ def prepare_target(base, target):
 
 
 def run(tier, seed, replay=None):
+    try:
+        return run1(tier, seed, replay)
+    finally:
+        import shutil
+        for d in HOME_DIRS:
+            shutil.rmtree(d, ignore_errors=True)
+
+
+def run1(tier, seed, replay=None):
     rep = common.Report("C20", tier, seed, "model_checking")
     rng = random.Random(seed * 1299709 + 20)
     full = tier != "quick"
@@ -86,17 +108,20 @@ def run(tier, seed, replay=None):
                   ("ps3", isotrees.ps3_tree(rng), True, True),
                   ("ps3-nosfo", isotrees.small_tree(rng, max_nodes=4), True, False),
                   ("dangling", [srv.dnode(["d"], 1500000000), srv.lnode(["d", "dl"], ["d", "nothing"])], False, False),
-                  ("longname", [srv.dnode(["d"], 1500000000), srv.fnode(["d", "n" * 240], 5, cid="ln", mtime=1500000001)], False, False)]
+                  ("longname", [srv.dnode(["d"], 1500000000), srv.fnode(["d", "n" * 240], 5, cid="ln", mtime=1500000001)], False, False),
+                  ("longroot", [srv.dnode(["Some Game Folder (EU) v1.02"], 1500000000), srv.fnode(["Some Game Folder (EU) v1.02", "a.bin"], 2049, cid="lr", mtime=1500000001)], False, True)]
         for name, nodes, ps3, input_ok in trees:
-            for target in (["absent", "stdout", "file", "emptyfile", "dir"] if (full or name in ("small0", "ps3")) else [rng.choice(["absent", "stdout"]), rng.choice(["file", "emptyfile", "dir"])]):
+            for target in (["absent", "stdout", "file", "emptyfile", "dir", "absent~", "file~", "emptyfile~"] if (full or name in ("small0", "ps3"))
+                           else [rng.choice(["absent", "stdout", "absent~"]), rng.choice(["file", "emptyfile", "dir", "file~"])]):
                 n += 1
                 base = os.path.join(scratch, "mk%d" % n)
                 os.makedirs(base)
                 nf = os.path.join(base, "nodes.json")
                 json.dump(nodes, open(nf, "w"))
                 hrun(["mkworld", "-nodes", nf, "-base", base])
-                d = os.path.join(base, "g", "d")
+                d = os.path.join(base, "g", nodes[0]["p"][0])
                 arg, obj, before = prepare_target(base, target)
+                target = target.rstrip("~")
                 ex, out, err = run_cli(binary, ["make-iso", d, arg] + (["--ps3-mode"] if ps3 else []), base)
                 obs = {"exit": ex, "imageAtTarget": False, "stdoutIsImage": False, "stdoutEmpty": len(out) == 0, "preexistingSame": True}
                 if before is not None:
@@ -133,7 +158,7 @@ def run(tier, seed, replay=None):
                 dec_cases.append((tool, "3k3y-dec", "already-decrypted", [[0, 3], [5, 8]], 8, False, "goodkey"))
                 dec_cases.append((tool, "redump", "no-watermark", [[0, 3], [5, 8]], 8, False, "goodkey"))
         for tool, kind, sname, regions, sectors, ok, keykind in dec_cases:
-            for target in (["absent", "stdout", "file", "emptyfile", "dir"] if (full or sname == "ok") else ["absent", rng.choice(["file", "emptyfile", "stdout"])]):
+            for target in (["absent", "stdout", "file", "emptyfile", "dir", "absent~", "file~"] if (full or sname == "ok") else ["absent", rng.choice(["file", "emptyfile", "stdout", "file~"])]):
                 n += 1
                 base = os.path.join(scratch, "dec%d" % n)
                 os.makedirs(base)
@@ -145,6 +170,7 @@ def run(tier, seed, replay=None):
                 if keykind == "badkey":
                     open(kf, "w").write("this is not hex\n")
                 arg, obj, before = prepare_target(base, target)
+                target = target.rstrip("~")
                 args = ["decrypt", "redump", img, kf, arg] if tool == "redump" else ["decrypt", "3k3y", img, arg]
                 ex, out, err = run_cli(binary, args, base)
                 obs = {"exit": ex, "imageAtTarget": False, "stdoutIsImage": False, "stdoutEmpty": len(out) == 0, "preexistingSame": True}
